@@ -239,7 +239,7 @@ theorem N_writeGeneric (cfg : Cfg) (m : M) (t r : Str) (hb : m.buf = []) :
     N (writeGeneric cfg m t r) = via (fun k => writeGeneric cfg k t r) (N m) := by
   unfold via writeGeneric
   split
-  · rw [N_N]
+  · simp only [↓N_updModeInfo, N_N]
   · simp only [↓N_updModeInfo]
     rw [N_direct _ _ hb, N_direct _ _ (N_buf m)]
     nfields
@@ -1748,8 +1748,7 @@ def updPending (k : M) (rows : List Row) (mi : Str) (hp : Option (Str × Str)) :
   { k with out := k.out ++ rows, modeInfo := mi, handledPair := hp }
 
 theorem N_writeGeneric_explicit (cfg : Cfg) (m : M) (t r : Str) (hb : m.buf = []) :
-    N (writeGeneric cfg m t r) = updPending (N m) ((genericRows cfg m t r).map Row.er)
-      (if cfg.fileStyle.isOmitted ∧ ¬ cfg.colorOnly then m.modeInfo else []) m.handledPair := by
+    N (writeGeneric cfg m t r) = updPending (N m) ((genericRows cfg m t r).map Row.er) [] m.handledPair := by
   unfold writeGeneric genericRows updPending
   split
   · simp [N]
@@ -1757,8 +1756,8 @@ theorem N_writeGeneric_explicit (cfg : Cfg) (m : M) (t r : Str) (hb : m.buf = []
     rw [N_direct _ _ hb]
     simp [updModeInfo, updOut, N]
 
-theorem writeGeneric_modeInfo (cfg : Cfg) (m : M) (t r : Str) :
-    (writeGeneric cfg m t r).modeInfo = if cfg.fileStyle.isOmitted ∧ ¬ cfg.colorOnly then m.modeInfo else [] := by
+/-- the header write consumes the mode information, whatever the configuration (also when the header is omitted) -/
+theorem writeGeneric_modeInfo (cfg : Cfg) (m : M) (t r : Str) : (writeGeneric cfg m t r).modeInfo = [] := by
   unfold writeGeneric; split <;> rfl
 
 theorem writeGeneric_currentPair (cfg : Cfg) (m : M) (t r : Str) :
@@ -1854,14 +1853,12 @@ def flushedRows (m : M) : List Row := m.out ++ m.buf ++ m.minus.map HLine.row ++
 
 def sourceOk (sA : M) (d : L) : Prop := sA.source = .unknown ∨ sA.source = detectSource d.text
 def counterOk (sA : M) (d : L) : Prop := clampC (stepInit sA d).counter = clampC (stepInit {} d).counter
-def modeOk (cfg : Cfg) (sA : M) : Prop := sA.modeInfo = [] ∨ ¬ (cfg.fileStyle.isOmitted ∧ ¬ cfg.colorOnly)
 def mcLinesOk (sA : M) : Prop := sA.mcOurs = [] ∧ sA.mcAnc = [] ∧ sA.mcTheirs = []
 def pendingOk (cfg : Cfg) (sA : M) (d : L) : Prop :=
   (pendingRows cfg { stepInit sA d with st := diffLineState d }).map Row.er = (pendingRows cfg sA).map Row.er
 
 instance (sA : M) (d : L) : Decidable (sourceOk sA d) := by unfold sourceOk; infer_instance
 instance (sA : M) (d : L) : Decidable (counterOk sA d) := by unfold counterOk; infer_instance
-instance (cfg : Cfg) (sA : M) : Decidable (modeOk cfg sA) := by unfold modeOk; infer_instance
 instance (sA : M) : Decidable (mcLinesOk sA) := by unfold mcLinesOk; infer_instance
 instance (cfg : Cfg) (sA : M) (d : L) : Decidable (pendingOk cfg sA d) := by unfold pendingOk; infer_instance
 
@@ -1869,11 +1866,10 @@ instance (cfg : Cfg) (sA : M) (d : L) : Decidable (pendingOk cfg sA d) := by unf
 form a clean section boundary:
 * `sourceOk`: the input kind detected so far (if any) is the one `d` announces;
 * `counterOk`: the plain-diff `--- ` counter stands where a fresh run would put it;
-* `modeOk`: no mode information survives the pending header (it does when the header is omitted);
 * `mcLinesOk`: no merge-conflict lines are held back (the section did not end inside a conflict region);
 * `pendingOk`: the pending file header is written (or not) at the `diff ` line exactly as at end of input. -/
 def SectionBoundary (cfg : Cfg) (sA : M) (d : L) : Prop :=
-  sourceOk sA d ∧ counterOk sA d ∧ modeOk cfg sA ∧ mcLinesOk sA ∧ pendingOk cfg sA d
+  sourceOk sA d ∧ counterOk sA d ∧ mcLinesOk sA ∧ pendingOk cfg sA d
 
 instance (cfg : Cfg) (sA : M) (d : L) : Decidable (SectionBoundary cfg sA d) := by
   unfold SectionBoundary; infer_instance
@@ -1891,14 +1887,15 @@ theorem pendingDiffName_modeInfo_nil (cfg : Cfg) (m : M) (h : m.modeInfo = []) :
     | contradiction
     | (simp only [handleHeaderLine, writeGeneric_modeInfo, emit_modeInfo', h, ite_self])
 
-/-- a header that is written takes the mode information with it -/
-theorem pendingDiffName_modeInfo_written (cfg : Cfg) (m : M) (hp : pendingTest m = true)
-    (h : ¬ (cfg.fileStyle.isOmitted ∧ ¬ cfg.colorOnly)) : (pendingDiffName cfg m).modeInfo = [] := by
+/-- the pending header takes the mode information with it, written or omitted: where
+`handle_pending_line_with_diff_name` acts at all (a diff-header state, or plain `diff -u` input) nothing is left -/
+theorem pendingDiffName_modeInfo_written (cfg : Cfg) (m : M) (hp : pendingTest m = true) :
+    (pendingDiffName cfg m).modeInfo = [] := by
   by_cases hm : m.modeInfo = []
   · exact pendingDiffName_modeInfo_nil cfg m hm
   · unfold pendingDiffName
     simp only [hp, Bool.not_true, Bool.false_eq_true, if_false, ne_eq, hm, not_false_eq_true, if_true]
-    simp only [writeGeneric_modeInfo, h, if_false]
+    simp only [writeGeneric_modeInfo]
 
 theorem afterReset_init (cfg : Cfg) (d : L) :
     pendingRows cfg (atDiffLine {} d) = [] ∧ (pendingDiffName cfg (atDiffLine {} d)).modeInfo = [] := by
@@ -1921,17 +1918,14 @@ theorem pendingRows_atDiffLine (cfg : Cfg) (m : M) (d : L) :
   simp only [shouldHandle_eq]
   simp
 
-theorem pendingMode_atDiffLine (cfg : Cfg) (m : M) (d : L) (h : modeOk cfg m) :
-    (pendingDiffName cfg (atDiffLine m d)).modeInfo = [] := by
-  have h1 : (atDiffLine m d).modeInfo = m.modeInfo := by simp [atDiffLine]
-  unfold modeOk at h
-  rcases h with h | h
-  · exact pendingDiffName_modeInfo_nil cfg _ (h1.trans h)
-  · exact pendingDiffName_modeInfo_written cfg _ (pendingTest_atDiffLine m d) h
+/-- at a `diff ` line no mode information survives: whatever the section before left, for every configuration -/
+theorem pendingMode_atDiffLine (cfg : Cfg) (m : M) (d : L) :
+    (pendingDiffName cfg (atDiffLine m d)).modeInfo = [] :=
+  pendingDiffName_modeInfo_written cfg _ (pendingTest_atDiffLine m d)
 
 theorem boundary_reset (cfg : Cfg) (sA : M) (d : L) (hb : SectionBoundary cfg sA d) :
     N (afterReset cfg sA d) = P (sectionRows cfg sA) (N (afterReset cfg {} d)) := by
-  obtain ⟨hs, hc, hm, hl, hp⟩ := hb
+  obtain ⟨hs, hc, hl, hp⟩ := hb
   unfold afterReset
   rw [N_diffLineFields, N_diffLineFields, N_pendingDiffName_explicit, N_pendingDiffName_explicit]
   rw [(afterReset_init cfg d).1, (afterReset_init cfg d).2]
@@ -1941,7 +1935,7 @@ theorem boundary_reset (cfg : Cfg) (sA : M) (d : L) (hb : SectionBoundary cfg sA
     intro m; rw [stepInit_frame]; simp [N]
   rw [e1, e1, N_flushMP_explicit, N_flushMP_explicit, e2, e2]
   simp [diffLineFields, updPending, updStO, P, N, sectionRows]
-  refine ⟨?_, pendingMode_atDiffLine cfg sA d hm, hc, ?_, hl.1, hl.2.1, hl.2.2⟩
+  refine ⟨?_, pendingMode_atDiffLine cfg sA d, hc, ?_, hl.1, hl.2.1, hl.2.2⟩
   · rw [stepInit_source, stepInit_source]
     unfold sourceOk at hs
     rcases hs with h | h
